@@ -52,7 +52,8 @@ class InternedMC(type):
         key = tuple(sorted(kwargs.items()))
         try:
             if key not in cls._cache:
-                cls._cache[key] = super().__call__(**kwargs)
+                # (setdefault: another thread may be creating the same one)
+                cls._cache.setdefault(key, super().__call__(**kwargs))
             return cls._cache[key]
         except TypeError:
             # A field (e.g. the value a variable is compared to) is not
